@@ -130,6 +130,25 @@ def rule_units(ck):
     else:
         o.fail('the timestamp handed to fromtimestamp is `%s`; it must be <ms> / 1000 with true division (floor division drops the '
                'milliseconds, another factor changes the unit)' % u(a))
+    # every definition of the returned datetime, on every platform branch, is one of the two exact constructions
+    rr = [x for x in returns(f) if x.value is not None and not (isinstance(x.value, ast.Name) and x.value.id == p)]
+    forms = ['datetime.datetime.fromtimestamp({p} / 1000, datetime.timezone.utc)',
+             'datetime.datetime.fromtimestamp({p} / 1000, tz=datetime.timezone.utc)']
+    for arg in ('{p}', 'builtins.float({p})', 'builtins.int({p})'):
+        forms.append('datetime.datetime(1970, 1, 1, tzinfo=datetime.timezone.utc) + datetime.timedelta(milliseconds=%s)' % arg)
+    NE = sym.Normalizer(erase_shape=False)
+    okforms = [NE.nf(ast.parse(t_.format(p=p), mode='eval').body) for t_ in forms]
+    for x in rr:
+        for alt in phi_alternatives(ex.expand(x.value)):
+            oo = ck.ob('C15-D1.branch', f, u(alt)[:120], x)
+            try:
+                good = NE.nf(alt) in okforms
+            except Exception:
+                good = False
+            (oo.ok('exact construction') if good else
+             oo.fail('one branch builds the datetime as `%s`: neither fromtimestamp(ms / 1000, UTC) nor UTC epoch + timedelta(milliseconds=ms); '
+                     'string surgery on the float seconds misplaces the milliseconds (-1500 ms -> -1 s - 5 ms) and yields a naive '
+                     'datetime' % u(alt)[:140]))
     ck.clause('D2')
     o = ck.ob('C15-D2.tz', f, calls[0], calls[0])
     tz = calls[0].args[1] if len(calls[0].args) > 1 else kw(calls[0], 'tz')
